@@ -71,6 +71,19 @@ CLAIMED.update({
             'DESIGN.md §3 C18'),
 })
 
+CLAIMED.update({
+    'C13': ('translation_validation',
+            'the emitted straight-line latch code (Python and C syntax) is read into z3 and compared with the exported BDD roots for all inputs; for whole programs compute_bdds is composed into the relation and z3 checks (exists out. R) => R[out := code(state)] for all state bits; CrossHair decides the integer<->bit glue; each program is also executed for real',
+            'Per-program validation with the solver quantifying over every input state: seeded relations over signed / unsigned / all-negative integers and Booleans.',
+            'Trusted: z3, the expression reader for emitted code, CrossHair, dd node accessors. Bounds: identifiers of 1-4 bits, 1-2 output variables, relations of depth <= 2; C target only read structurally.',
+            'DESIGN.md §3 C13'),
+    'C14': ('model_checking',
+            'functions.make_functions run for real on seeded relations and every subset of output bits; z3 decides independence (dependence queries), membership ((exists out. R) => R[y := g_y]) and care-set containment/value agreement for all inputs; both the dd.cudd.restrict path and the fall-back path',
+            'Bounded solver check per (relation, output subset), all inputs symbolic.',
+            'Trusted: z3, dd node accessors. Bounds: relations over <= 10 bits, <= 4 candidate output bits. Care sets: containment of the forced inputs and value agreement (see DESIGN.md C14).',
+            'DESIGN.md §3 C14'),
+})
+
 NOT_APPLICABLE = {
     'C16': 'Parser/precedence/round-trip: PLY regex lexer + table-driven LALR driver over token sequences; no arithmetic or bit-level state for a solver to range over. CrossHair on lexyacc.Parser.parse with symbolic strings (len <= 3) answers "Unable to meet precondition" after 90 s. See DESIGN.md §5.',
 }
